@@ -792,6 +792,10 @@ unsafe impl Allocator for PageAlignedAllocator {
             .map_err(|err| eprintln!("mprotect error = {:?}", err))
             .ok();
 
+        // wipe the whole allocation (including any spare capacity) before it
+        // goes back to the system allocator
+        std::slice::from_raw_parts_mut(ptr.add(pagesize), layout.size()).zeroize();
+
         #[cfg(feature = "verif_hooks")]
         verif::notify(verif::Event::Release {
             addr: ptr.add(pagesize) as usize,
